@@ -48,7 +48,8 @@ def run(tier):
               len(data["cmp"]) * 2 + len(data["sw"]) + len(data["sel"])),
              ("Delay/Average/Derivative", lambda: discdrv.check_histories(data["hist"]), len(data["hist"])),
              ("Sampling", lambda: discdrv.check_sampling(data["samp"]), len(data["samp"])),
-             ("DeadBandRT", lambda: discdrv.check_deadband_rt(data["rt"]), len(data["rt"]))]
+             ("DeadBandRT", lambda: discdrv.check_deadband_rt(data["rt"]), len(data["rt"])),
+             ("RateLimiter/AntiWindupRate", lambda: discdrv.check_ratelimiter(data["rl"], data["awr"]), len(data["rl"]) + len(data["awr"]))]
     for name, fn, n in parts:
         try:
             bad = fn()
